@@ -581,6 +581,20 @@ func checkC03(w *World, r *Report) {
 			}
 			r.Check(ok, "C03.R2", key, what, w.pos(rel.call.Pos()), detail)
 		}
+		// every hand-off gives the scheduler that worker: a goroutine started on anything else (the bare loop) never
+		// releases the token, and no later Send can schedule again
+		var odd []string
+		for _, h := range ir.handed {
+			if h.fn != ir.worker {
+				n := "an unresolved function value"
+				if h.fn != nil {
+					n = fname(h.fn)
+				}
+				odd = append(odd, fmt.Sprintf("%s hands over %s", h.pos, n))
+			}
+		}
+		r.Check(len(odd) == 0, "C03.R2", "Inbox:hand-off-target", "every hand-off to the scheduler starts the function that releases the token and re-checks the ring", w.fnPos(ir.worker),
+			strings.Join(odd, "; ")+": that goroutine drains and returns with the status still running; nothing can schedule the inbox again")
 	}
 
 	// R3
